@@ -355,7 +355,16 @@ Commit ==
     /\ todo' = IF i + 1 <= Len(slots) THEN Fresh ELSE <<>>
     /\ UNCHANGED <<slots, scheme>>
 
-Next == PickFun \/ Expand \/ Commit
+\* A finished document has a TWIN: the same document with the kinetic law of r1 doubled - same components, ids and
+\* participants (hence a generated module with the same functions on the same lines), another meaning.  The session
+\* replay stores twins under the same file stem in two directories: a mix-up of their generated sources is silent.
+IsTwin(e) == e.k = "mul" /\ e.a = Num(2)
+Twin ==
+    /\ Done /\ "r1" \in DOMAIN doc.rxns /\ ~IsTwin(doc.rxns["r1"].kl)
+    /\ doc' = [doc EXCEPT !.rxns["r1"].kl = Bin("mul", Num(2), @)]
+    /\ UNCHANGED <<slots, i, toks, todo, scheme>>
+
+Next == PickFun \/ Expand \/ Commit \/ Twin
 Spec == Init /\ [][Next]_vars
 
 \* ---- identifier schemes -------------------------------------------------------------------------------
